@@ -40,11 +40,21 @@ def one_case(run, ct, rng, net, ssa, plan, tlc_values, route=None):
             keys = [{inv[k]: int(v) for k, v in tree.slice_key(i).items()} for i in range(n)]
             opts = rng.choice([{}, {"prefer_einsum": True}, {"order": "dfs"}])
             svals = [np.asarray(tree.contract_slice(arrays, i, **opts)) for i in range(n)]
-            gathered = np.asarray(tree.gather_slices(svals))
+            if rng.random() < 0.2:
+                import contextlib, io
+                with contextlib.redirect_stderr(io.StringIO()):
+                    gathered = np.asarray(tree.gather_slices(svals, progbar=True))
+            else:
+                gathered = np.asarray(tree.gather_slices(svals))
             direct = np.asarray(tree.contract(arrays, **opts))
             chunks = [(np.asarray(ch), {inv[k]: int(v) for k, v in key.items()})
                       for ch, key in tree.gen_output_chunks(arrays, with_key=True, **opts)]
-            chunks_nokey = [np.asarray(ch) for ch in tree.gen_output_chunks(arrays)]
+            if rng.random() < 0.2:
+                import contextlib, io
+                with contextlib.redirect_stderr(io.StringIO()):
+                    chunks_nokey = [np.asarray(ch) for ch in tree.gen_output_chunks(arrays, progbar=True)]
+            else:
+                chunks_nokey = [np.asarray(ch) for ch in tree.gen_output_chunks(arrays)]
     except Exception as e:
         run.violation(f"slicing API raised {core.exc_text(e)} eq={net.eq()} dims={net.dims} ssa={ssa} plan={plan}",
                       desc, tags=["raised"])
